@@ -475,4 +475,894 @@ theorem acquire_step {w : World} {σ : SState} (h : Rel w σ) (c n : Str) (tb : 
           refine rel_arrive_full h c n cache id _ (.bucket q bb) tb e hn hcache hcur hk he rfl hok ?_
           intro cnt' hc'; cases hc'
 
+
+/-! ### a request finishes -/
+
+theorem markReleased_get (reqs : List Req) (i : Nat) (r : Req) (hr : reqs[i]? = some r) (j : Nat) :
+    (markReleased reqs i)[j]? = if j = i then some { r with released := true } else reqs[j]? := by
+  unfold markReleased
+  simp only [hr]
+  rw [List.getElem?_set]
+  have hi : i < reqs.length := (List.getElem?_eq_some_iff.1 hr).1
+  by_cases hji : j = i
+  · subst hji; simp [hi]
+  · have : ¬ i = j := fun h => hji h.symm
+    simp [hji, this]
+
+theorem specMark_get (reqs : List SReq) (i : Nat) (r : SReq) (hr : reqs[i]? = some r) (j : Nat) :
+    (specMark reqs i)[j]? = if j = i then some { r with released := true } else reqs[j]? := by
+  unfold specMark
+  simp only [hr]
+  rw [List.getElem?_set]
+  have hi : i < reqs.length := (List.getElem?_eq_some_iff.1 hr).1
+  by_cases hji : j = i
+  · subst hji; simp [hi]
+  · have : ¬ i = j := fun h => hji h.symm
+    simp [hji, this]
+
+theorem markReleased_length (reqs : List Req) (i : Nat) : (markReleased reqs i).length = reqs.length := by
+  unfold markReleased; split <;> simp
+
+theorem specMark_length (reqs : List SReq) (i : Nat) : (specMark reqs i).length = reqs.length := by
+  unfold specMark; split <;> simp
+
+theorem holdsL_markReleased (reqs : List Req) (i : Nat) (r : Req) (hr : reqs[i]? = some r) (j : Nat) (cur : Option Nat) :
+    HoldsL (markReleased reqs i) j cur ↔ (j ≠ i ∧ HoldsL reqs j cur) := by
+  unfold HoldsL
+  rw [markReleased_get reqs i r hr j]
+  by_cases hji : j = i
+  · subst hji; simp
+  · simp [hji]
+
+theorem kind_release_type (k : Kind) : k.release.type = k.type := by cases k <;> rfl
+
+theorem kindOk_release {k : Kind} {s : Schema} (h : KindOk k s) : KindOk k.release s := by
+  intro cnt hc
+  cases k with
+  | counter c0 =>
+    simp only [Kind.release] at hc
+    injection hc with hc
+    obtain ⟨m, hm, hmax⟩ := h c0 rfl
+    refine ⟨m, hm, ?_⟩
+    rw [← hc, ← hmax]
+    unfold Counter.release
+    split
+    · rfl
+    · split <;> rfl
+  | infinity => cases hc
+  | bucket q b => cases hc
+
+theorem counter_release_count (c : Counter) (h : 0 < c.count) : c.release.count = c.count - 1 := by
+  unfold Counter.release
+  have h1 : ¬ c.count ≤ 0 := by omega
+  have h2 : ¬ c.count - 1 < 0 := by omega
+  simp [h1, h2]
+
+theorem specRelease_nf (σ : SState) (i : Nat) (c n : Str) (hr : σ.reqs[i]? = some ⟨c, n, true, false⟩) :
+    (specRelease σ i).reqs = specMark σ.reqs i ∧ (specRelease σ i).last = σ.last ∧
+    (specRelease σ i).entries = fun c' n' =>
+      if c' = c ∧ n' = n then (σ.entries c n).map (fun e => { e with inflight := e.inflight.erase i })
+      else σ.entries c' n' := by
+  unfold specRelease
+  simp only [hr]
+  cases he : σ.entries c n with
+  | none =>
+    simp only [Bool.false_eq_true, not_false_eq_true, and_self, if_true, Option.map_none, true_and]
+    funext c' n'
+    by_cases h : c' = c ∧ n' = n
+    · obtain ⟨rfl, rfl⟩ := h; simp [he]
+    · simp [h]
+  | some e =>
+    simp only [Bool.false_eq_true, not_false_eq_true, and_self, if_true, Option.map_some]
+    exact ⟨rfl, rfl, rfl⟩
+
+/-- The `i`-th request finishes; `heap'` is the heap after its `Release()`. -/
+theorem rel_finish {w : World} {σ : SState} (h : RelCore w σ) (i : Nat) (r : Req) (hr : w.reqs[i]? = some r)
+    (hadm : r.admitted = true) (hrel : r.released = false) (heap' : Nat → Option Kind)
+    (hH1 : ∀ c n cache id', w.cache c n = some cache → cache.cur = some id' → ¬ Holds w i (some id') →
+      heap' id' = w.heap id')
+    (hH2 : ∀ c n cache id' k, w.cache c n = some cache → cache.cur = some id' → Holds w i (some id') →
+      w.heap id' = some k → heap' id' = some k.release) :
+    RelCore { w with heap := heap', reqs := markReleased w.reqs i } (specRelease σ i) := by
+  have hsr : σ.reqs[i]? = some ⟨r.c, r.n, true, false⟩ := by
+    have := h.reqsEq i r hr; rw [hadm, hrel] at this; exact this
+  obtain ⟨hrq, _, hen⟩ := specRelease_nf σ i r.c r.n hsr
+  have hlen := h.reqsLen
+  have hcacheEq : ∀ c' n', World.cache { w with heap := heap', reqs := markReleased w.reqs i } c' n' = w.cache c' n' :=
+    fun _ _ => rfl
+  -- if request i holds the current limiter of (c', n'), that is its own schema
+  have hownH : ∀ c' n' cache', w.cache c' n' = some cache' → Holds w i cache'.cur → c' = r.c ∧ n' = r.n := by
+    intro c' n' cache' hc' hh
+    obtain ⟨r', hr', _, _, hsome, hobj⟩ := hh
+    rw [hr] at hr'; injection hr' with hr'; subst hr'
+    cases hcur : cache'.cur with
+    | none => rw [hcur] at hobj; rw [hobj] at hsome; simp at hsome
+    | some id' => rw [hcur] at hobj; exact h.own i r id' c' n' cache' hr hobj hc' hcur
+  refine ⟨?_, ?_, ?_, ?_, ?_, ?_, ?_, ?_, ?_, ?_, ?_, ?_, ?_⟩
+  · -- dom
+    intro c' n'
+    rw [hcacheEq, hen]
+    by_cases hcn : c' = r.c ∧ n' = r.n
+    · obtain ⟨rfl, rfl⟩ := hcn
+      simp only [and_self, if_true, Option.isSome_map]
+      exact h.dom _ _
+    · simp only [hcn, if_false]; exact h.dom c' n'
+  · -- cfg
+    intro c' n' cache' e' hc' he'
+    rw [hcacheEq] at hc'
+    rw [hen] at he'
+    by_cases hcn : c' = r.c ∧ n' = r.n
+    · obtain ⟨rfl, rfl⟩ := hcn
+      simp only [and_self, if_true] at he'
+      cases he0 : σ.entries r.c r.n with
+      | none => rw [he0] at he'; simp at he'
+      | some e0 =>
+        rw [he0] at he'; simp only [Option.map_some] at he'
+        injection he' with he'; subst he'
+        exact h.cfg _ _ cache' e0 hc' he0
+    · simp only [hcn, if_false] at he'
+      exact h.cfg _ _ _ _ hc' he'
+  · intro c' n' cache' hc'; exact h.name c' n' cache' hc'
+  · -- curOk
+    intro c' n' cache' id' hc' hcur'
+    rw [hcacheEq] at hc'
+    obtain ⟨hlt, k0, hk0, hty0, hok0⟩ := h.curOk c' n' cache' id' hc' hcur'
+    refine ⟨hlt, ?_⟩
+    show ∃ k1, heap' id' = some k1 ∧ _
+    by_cases hh : Holds w i (some id')
+    · rw [hH2 c' n' cache' id' k0 hc' hcur' hh hk0]
+      exact ⟨_, rfl, (kind_release_type k0).trans hty0, kindOk_release hok0⟩
+    · rw [hH1 c' n' cache' id' hc' hcur' hh]
+      exact ⟨k0, hk0, hty0, hok0⟩
+  · intro c' n' cache' hc' hn'; exact h.curNone c' n' cache' hc' hn'
+  · intro c1 n1 c2 n2 cache1 cache2 id' h1 h2 h3 h4; exact h.inj c1 n1 c2 n2 cache1 cache2 id' h1 h2 h3 h4
+  · -- reqsLen
+    show (markReleased w.reqs i).length = _
+    rw [hrq, markReleased_length, specMark_length, hlen]
+  · -- reqsEq
+    intro j r' hj
+    change (markReleased w.reqs i)[j]? = some r' at hj
+    rw [markReleased_get w.reqs i r hr j] at hj
+    rw [hrq, specMark_get σ.reqs i _ hsr j]
+    by_cases hji : j = i
+    · simp only [hji, if_true] at hj ⊢
+      injection hj with hj; subst hj
+      simp [hadm]
+    · simp only [hji, if_false] at hj ⊢
+      exact h.reqsEq j r' hj
+  · -- reqObj
+    intro j r' id' hj hobj
+    change (markReleased w.reqs i)[j]? = some r' at hj
+    rw [markReleased_get w.reqs i r hr j] at hj
+    show id' < w.next
+    by_cases hji : j = i
+    · simp only [hji, if_true] at hj
+      injection hj with hj; subst hj
+      exact h.reqObj i r id' hr hobj
+    · simp only [hji, if_false] at hj
+      exact h.reqObj j r' id' hj hobj
+  · -- own
+    intro j r' id' c' n' cache' hj hobj hc' hcur'
+    change (markReleased w.reqs i)[j]? = some r' at hj
+    rw [markReleased_get w.reqs i r hr j] at hj
+    rw [hcacheEq] at hc'
+    by_cases hji : j = i
+    · simp only [hji, if_true] at hj
+      injection hj with hj; subst hj
+      exact h.own i r id' c' n' cache' hr hobj hc' hcur'
+    · simp only [hji, if_false] at hj
+      exact h.own j r' id' c' n' cache' hj hobj hc' hcur'
+  · -- count
+    intro c' n' cache' e' id' cnt' hc' he' hcur' hh'
+    rw [hcacheEq] at hc'
+    rw [hen] at he'
+    change heap' id' = some (.counter cnt') at hh'
+    obtain ⟨_, k0, hk0, _, _⟩ := h.curOk c' n' cache' id' hc' hcur'
+    by_cases hh : Holds w i (some id')
+    · obtain ⟨rfl, rfl⟩ := hownH c' n' cache' hc' (hcur' ▸ hh)
+      simp only [and_self, if_true] at he'
+      cases he0 : σ.entries r.c r.n with
+      | none => rw [he0] at he'; simp at he'
+      | some e0 =>
+        rw [he0] at he'; simp only [Option.map_some] at he'
+        injection he' with he'; subst he'
+        have hmem : i ∈ e0.inflight := (h.infl _ _ cache' e0 i hc' he0).2 (hcur' ▸ hh)
+        rw [hH2 _ _ cache' id' k0 hc' hcur' hh hk0] at hh'
+        cases k0 with
+        | counter c0 =>
+          simp only [Kind.release] at hh'
+          injection hh' with hh'; injection hh' with hh'; subst hh'
+          have hc0 := h.count _ _ cache' e0 id' c0 hc' he0 hcur' hk0
+          have hpos : 0 < e0.inflight.length := List.length_pos_of_mem hmem
+          rw [counter_release_count c0 (by omega), List.length_erase_of_mem hmem, hc0]
+          omega
+        | infinity => simp [Kind.release] at hh'
+        | bucket q b => simp [Kind.release] at hh'
+    · rw [hH1 c' n' cache' id' hc' hcur' hh] at hh'
+      by_cases hcn : c' = r.c ∧ n' = r.n
+      · obtain ⟨rfl, rfl⟩ := hcn
+        simp only [and_self, if_true] at he'
+        cases he0 : σ.entries r.c r.n with
+        | none => rw [he0] at he'; simp at he'
+        | some e0 =>
+          rw [he0] at he'; simp only [Option.map_some] at he'
+          injection he' with he'; subst he'
+          have hnm : i ∉ e0.inflight := fun hm => hh (hcur' ▸ (h.infl _ _ cache' e0 i hc' he0).1 hm)
+          simp only [List.erase_of_not_mem hnm]
+          exact h.count _ _ cache' e0 id' cnt' hc' he0 hcur' hh'
+      · simp only [hcn, if_false] at he'
+        exact h.count c' n' cache' e' id' cnt' hc' he' hcur' hh'
+  · -- infl
+    intro c' n' cache' e' j hc' he'
+    rw [hcacheEq] at hc'
+    rw [hen] at he'
+    show j ∈ e'.inflight ↔ HoldsL (markReleased w.reqs i) j cache'.cur
+    rw [holdsL_markReleased w.reqs i r hr]
+    by_cases hcn : c' = r.c ∧ n' = r.n
+    · obtain ⟨rfl, rfl⟩ := hcn
+      simp only [and_self, if_true] at he'
+      cases he0 : σ.entries r.c r.n with
+      | none => rw [he0] at he'; simp at he'
+      | some e0 =>
+        rw [he0] at he'; simp only [Option.map_some] at he'
+        injection he' with he'; subst he'
+        have hnd := h.nodup _ _ e0 he0
+        simp only [hnd.mem_erase_iff]
+        rw [h.infl _ _ cache' e0 j hc' he0]
+    · simp only [hcn, if_false] at he'
+      rw [h.infl c' n' cache' e' j hc' he']
+      constructor
+      · intro hh
+        refine ⟨?_, hh⟩
+        intro hji; subst hji
+        exact hcn (hownH c' n' cache' hc' hh)
+      · exact fun hh => hh.2
+  · -- nodup
+    intro c' n' e' he'
+    rw [hen] at he'
+    by_cases hcn : c' = r.c ∧ n' = r.n
+    · obtain ⟨rfl, rfl⟩ := hcn
+      simp only [and_self, if_true] at he'
+      cases he0 : σ.entries r.c r.n with
+      | none => rw [he0] at he'; simp at he'
+      | some e0 =>
+        rw [he0] at he'; simp only [Option.map_some] at he'
+        injection he' with he'; subst he'
+        exact (h.nodup _ _ e0 he0).erase i
+    · simp only [hcn, if_false] at he'
+      exact h.nodup c' n' e' he'
+
+
+theorem release_step {w : World} {σ : SState} (h : Rel w σ) (i : Nat) : Rel (release w i).1 (specRelease σ i) := by
+  have hc := h.core
+  unfold release
+  cases hr : w.reqs[i]? with
+  | none =>
+    have : σ.reqs[i]? = none := by
+      rw [List.getElem?_eq_none_iff] at hr ⊢
+      rw [← hc.reqsLen]; exact hr
+    simp only [specRelease, this]
+    exact h
+  | some r =>
+    have hsr := hc.reqsEq i r hr
+    by_cases hcond : r.admitted = true ∧ ¬ r.released = true
+    · have hcondT := hcond
+      obtain ⟨hadm, hrel⟩ := hcond
+      have hrel' : r.released = false := by simpa using hrel
+      dsimp only
+      rw [if_pos hcondT]
+      have hlast : ∀ d, (specRelease σ i).last d = σ.last d := by
+        intro d
+        have := (specRelease_nf σ i r.c r.n (by rw [hsr, hadm, hrel'])).2.1
+        rw [this]
+      -- whatever the heap becomes, the stored spec lists and the set of configured names are untouched
+      have wrap : ∀ heap', RelCore { w with heap := heap', reqs := markReleased w.reqs i } (specRelease σ i) →
+          Rel { w with heap := heap', reqs := markReleased w.reqs i } (specRelease σ i) := by
+        intro heap' hcore
+        exact ⟨hcore, fun d => (h.last d).trans (hlast d).symm, h.dom2⟩
+      cases hobj : r.obj with
+      | none =>
+        dsimp only
+        refine wrap w.heap (rel_finish hc i r hr hadm hrel' w.heap (fun _ _ _ _ _ _ _ => rfl) ?_)
+        intro c n cache id' k _ _ hh _
+        obtain ⟨r', hr', _, _, _, ho⟩ := hh
+        rw [hr] at hr'; injection hr' with hr'; subst hr'
+        rw [hobj] at ho; cases ho
+      | some id =>
+        dsimp only
+        cases hk : w.heap id with
+        | none =>
+          dsimp only
+          refine wrap w.heap (rel_finish hc i r hr hadm hrel' w.heap (fun _ _ _ _ _ _ _ => rfl) ?_)
+          intro c n cache id' k _ _ hh hk'
+          obtain ⟨r', hr', _, _, _, ho⟩ := hh
+          rw [hr] at hr'; injection hr' with hr'; subst hr'
+          rw [hobj] at ho; injection ho with ho; subst ho
+          rw [hk] at hk'; cases hk'
+        | some k =>
+          dsimp only
+          refine wrap _ (rel_finish hc i r hr hadm hrel' (fun j => if j = id then some k.release else w.heap j) ?_ ?_)
+          · intro c n cache id' hcache hcur hnh
+            by_cases hid : id' = id
+            · subst hid
+              exact absurd ⟨r, hr, hadm, hrel', by simp [hobj], hobj⟩ hnh
+            · simp [hid]
+          · intro c n cache id' k' _ _ hh hk'
+            obtain ⟨r', hr', _, _, _, ho⟩ := hh
+            rw [hr] at hr'; injection hr' with hr'; subst hr'
+            rw [hobj] at ho; injection ho with ho; subst ho
+            rw [hk] at hk'; injection hk' with hk'; subst hk'
+            simp
+    · have hcond' : ¬ ((⟨r.c, r.n, r.admitted, r.released⟩ : SReq).admitted = true ∧
+          ¬ (⟨r.c, r.n, r.admitted, r.released⟩ : SReq).released = true) := hcond
+      simp only [hcond, if_false, specRelease, hsr, hcond']
+      exact h
+
+
+/-! ### reconfiguration -/
+
+theorem putCache_self (w : World) (c n : Str) (x : Option Cache) (h : w.cache c n = x) : putCache w c n x = w := by
+  unfold putCache World.setLim Limiter.setCache
+  have : (fun d => if d = c then { spec := (w.lims c).spec, caches := fun m => if m = n then x else (w.lims c).caches m } else w.lims d) = w.lims := by
+    funext d
+    by_cases hd : d = c
+    · subst hd
+      simp only [if_true]
+      have : (fun m => if m = n then x else (w.lims d).caches m) = (w.lims d).caches := by
+        funext m
+        by_cases hm : m = n
+        · subst hm; simp only [if_true]; exact h.symm
+        · simp [hm]
+      rw [this]
+    · simp [hd]
+  rw [this]
+
+theorem setEntry_self (σ : SState) (c n : Str) (x : Option Entry) (h : σ.entries c n = x) : σ.setEntry c n x = σ := by
+  unfold SState.setEntry
+  have : (fun c' n' => if c' = c ∧ n' = n then x else σ.entries c' n') = σ.entries := by
+    funext c' n'
+    by_cases hcn : c' = c ∧ n' = n
+    · obtain ⟨rfl, rfl⟩ := hcn; simp [h]
+    · simp [hcn]
+  rw [this]
+
+/-- A new limiter object becomes the current one of `(c, s.name)` (creation or type change). -/
+theorem rel_create {w : World} {σ : SState} (h : RelCore w σ) (c : Str) (s : Schema) (k : Kind)
+    (hty : k.type = guessType s) (hok : KindOk k s) (hzero : ∀ cnt, k = .counter cnt → cnt.count = 0) :
+    RelCore (putCache (w.alloc k) c s.name (some ⟨s, some w.next⟩)) (σ.setEntry c s.name (some ⟨s, []⟩)) := by
+  have hcache : ∀ c' n', (putCache (w.alloc k) c s.name (some ⟨s, some w.next⟩)).cache c' n' =
+      if c' = c ∧ n' = s.name then some ⟨s, some w.next⟩ else w.cache c' n' := by
+    intro c' n'; rw [putCache_cache]; rfl
+  have hentry : ∀ c' n', (σ.setEntry c s.name (some ⟨s, []⟩)).entries c' n' =
+      if c' = c ∧ n' = s.name then some ⟨s, []⟩ else σ.entries c' n' := fun _ _ => rfl
+  have hheap : ∀ i, (putCache (w.alloc k) c s.name (some ⟨s, some w.next⟩)).heap i = if i = w.next then some k else w.heap i :=
+    fun _ => rfl
+  have hnext : (putCache (w.alloc k) c s.name (some ⟨s, some w.next⟩)).next = w.next + 1 := rfl
+  have hreqs : (putCache (w.alloc k) c s.name (some ⟨s, some w.next⟩)).reqs = w.reqs := rfl
+  have noHold : ∀ i, ¬ HoldsL w.reqs i (some w.next) := by
+    rintro i ⟨r, hr, _, _, _, ho⟩
+    have := h.reqObj i r w.next hr ho
+    omega
+  refine ⟨?_, ?_, ?_, ?_, ?_, ?_, ?_, ?_, ?_, ?_, ?_, ?_, ?_⟩
+  · intro c' n'
+    rw [hcache, hentry]
+    by_cases hcn : c' = c ∧ n' = s.name
+    · simp [hcn]
+    · simp only [hcn, if_false]; exact h.dom c' n'
+  · intro c' n' cache' e' hc' he'
+    rw [hcache] at hc'; rw [hentry] at he'
+    by_cases hcn : c' = c ∧ n' = s.name
+    · simp only [hcn, and_self, if_true] at hc' he'
+      injection hc' with hc'; injection he' with he'; subst hc'; subst he'; rfl
+    · simp only [hcn, if_false] at hc' he'; exact h.cfg c' n' cache' e' hc' he'
+  · intro c' n' cache' hc'
+    rw [hcache] at hc'
+    by_cases hcn : c' = c ∧ n' = s.name
+    · simp only [hcn, and_self, if_true] at hc'
+      injection hc' with hc'; subst hc'; exact hcn.2.symm
+    · simp only [hcn, if_false] at hc'; exact h.name c' n' cache' hc'
+  · intro c' n' cache' id' hc' hcur'
+    rw [hcache] at hc'
+    rw [hnext]
+    by_cases hcn : c' = c ∧ n' = s.name
+    · simp only [hcn, and_self, if_true] at hc'
+      injection hc' with hc'; subst hc'
+      simp only at hcur'; injection hcur' with hcur'; subst hcur'
+      exact ⟨by omega, k, by rw [hheap]; simp, hty, hok⟩
+    · simp only [hcn, if_false] at hc'
+      obtain ⟨hlt, k0, hk0, hty0, hok0⟩ := h.curOk c' n' cache' id' hc' hcur'
+      refine ⟨by omega, k0, ?_, hty0, hok0⟩
+      rw [hheap]
+      have : id' ≠ w.next := by omega
+      simp [this, hk0]
+  · intro c' n' cache' hc' hcur'
+    rw [hcache] at hc'
+    by_cases hcn : c' = c ∧ n' = s.name
+    · simp only [hcn, and_self, if_true] at hc'
+      injection hc' with hc'; subst hc'; simp at hcur'
+    · simp only [hcn, if_false] at hc'; exact h.curNone c' n' cache' hc' hcur'
+  · intro c1 n1 c2 n2 cache1 cache2 id' h1 h2 h3 h4
+    rw [hcache] at h1 h2
+    by_cases hcn1 : c1 = c ∧ n1 = s.name
+    · by_cases hcn2 : c2 = c ∧ n2 = s.name
+      · exact ⟨hcn1.1.trans hcn2.1.symm, hcn1.2.trans hcn2.2.symm⟩
+      · simp only [hcn1, and_self, if_true] at h1
+        simp only [hcn2, if_false] at h2
+        injection h1 with h1; subst h1
+        simp only at h3; injection h3 with h3; subst h3
+        have := (h.curOk c2 n2 cache2 _ h2 h4).1
+        omega
+    · simp only [hcn1, if_false] at h1
+      by_cases hcn2 : c2 = c ∧ n2 = s.name
+      · simp only [hcn2, and_self, if_true] at h2
+        injection h2 with h2; subst h2
+        simp only at h4; injection h4 with h4; subst h4
+        have := (h.curOk c1 n1 cache1 _ h1 h3).1
+        omega
+      · simp only [hcn2, if_false] at h2
+        exact h.inj c1 n1 c2 n2 cache1 cache2 id' h1 h2 h3 h4
+  · rw [hreqs]; exact h.reqsLen
+  · intro i r hi; rw [hreqs] at hi; exact h.reqsEq i r hi
+  · intro i r id' hi hobj; rw [hreqs] at hi; rw [hnext]
+    have := h.reqObj i r id' hi hobj; omega
+  · intro i r id' c' n' cache' hi hobj hc' hcur'
+    rw [hreqs] at hi; rw [hcache] at hc'
+    by_cases hcn : c' = c ∧ n' = s.name
+    · simp only [hcn, and_self, if_true] at hc'
+      injection hc' with hc'; subst hc'
+      simp only at hcur'; injection hcur' with hcur'; subst hcur'
+      have := h.reqObj i r _ hi hobj
+      omega
+    · simp only [hcn, if_false] at hc'
+      exact h.own i r id' c' n' cache' hi hobj hc' hcur'
+  · intro c' n' cache' e' id' cnt' hc' he' hcur' hh
+    rw [hcache] at hc'; rw [hentry] at he'; rw [hheap] at hh
+    by_cases hcn : c' = c ∧ n' = s.name
+    · simp only [hcn, and_self, if_true] at hc' he'
+      injection hc' with hc'; injection he' with he'; subst hc'; subst he'
+      simp only at hcur'; injection hcur' with hcur'; subst hcur'
+      simp only [if_true] at hh; injection hh with hh
+      simp [hzero cnt' hh]
+    · simp only [hcn, if_false] at hc' he'
+      have hlt := (h.curOk c' n' cache' id' hc' hcur').1
+      have : id' ≠ w.next := by omega
+      simp only [this, if_false] at hh
+      exact h.count c' n' cache' e' id' cnt' hc' he' hcur' hh
+  · intro c' n' cache' e' i hc' he'
+    rw [hcache] at hc'; rw [hentry] at he'
+    show _ ↔ HoldsL (putCache (w.alloc k) c s.name _).reqs i cache'.cur
+    rw [hreqs]
+    by_cases hcn : c' = c ∧ n' = s.name
+    · simp only [hcn, and_self, if_true] at hc' he'
+      injection hc' with hc'; injection he' with he'; subst hc'; subst he'
+      simp only [List.not_mem_nil, false_iff]
+      exact noHold i
+    · simp only [hcn, if_false] at hc' he'
+      exact h.infl c' n' cache' e' i hc' he'
+  · intro c' n' e' he'
+    rw [hentry] at he'
+    by_cases hcn : c' = c ∧ n' = s.name
+    · simp only [hcn, and_self, if_true] at he'
+      injection he' with he'; subst he'; exact List.nodup_nil
+    · simp only [hcn, if_false] at he'; exact h.nodup c' n' e' he'
+
+
+/-- The current limiter object of `(c, n)` is kept and changed in place to `k'` (resize), the schema becomes `s`. -/
+theorem rel_resize {w : World} {σ : SState} (h : RelCore w σ) (c n : Str) (cache : Cache) (id : Nat) (k' : Kind)
+    (e : Entry) (s : Schema) (hc : w.cache c n = some cache) (hcur : cache.cur = some id)
+    (he : σ.entries c n = some e) (hname : s.name = n) (hty : k'.type = guessType s) (hok : KindOk k' s)
+    (hcnt : ∀ cnt', k' = .counter cnt' → cnt'.count = e.inflight.length) :
+    RelCore (putCache (w.setHeap id k') c n (some ⟨s, some id⟩)) (σ.setEntry c n (some { e with config := s })) := by
+  have hcache : ∀ c' n', (putCache (w.setHeap id k') c n (some ⟨s, some id⟩)).cache c' n' =
+      if c' = c ∧ n' = n then some ⟨s, some id⟩ else w.cache c' n' := by
+    intro c' n'; rw [putCache_cache]; rfl
+  have hentry : ∀ c' n', (σ.setEntry c n (some { e with config := s })).entries c' n' =
+      if c' = c ∧ n' = n then some { e with config := s } else σ.entries c' n' := fun _ _ => rfl
+  have hheap : ∀ i, (putCache (w.setHeap id k') c n (some ⟨s, some id⟩)).heap i = if i = id then some k' else w.heap i :=
+    fun _ => rfl
+  have hnext : (putCache (w.setHeap id k') c n (some ⟨s, some id⟩)).next = w.next := rfl
+  have hreqs : (putCache (w.setHeap id k') c n (some ⟨s, some id⟩)).reqs = w.reqs := rfl
+  have hidlt := (h.curOk c n cache id hc hcur).1
+  -- another configured name never shares the object
+  have hother : ∀ c' n' cache' id', ¬ (c' = c ∧ n' = n) → w.cache c' n' = some cache' → cache'.cur = some id' → id' ≠ id := by
+    intro c' n' cache' id' hcn hc' hcur' heq
+    subst heq
+    exact hcn (h.inj c' n' c n cache' cache id' hc' hc hcur' hcur)
+  refine ⟨?_, ?_, ?_, ?_, ?_, ?_, ?_, ?_, ?_, ?_, ?_, ?_, ?_⟩
+  · intro c' n'
+    rw [hcache, hentry]
+    by_cases hcn : c' = c ∧ n' = n
+    · simp [hcn]
+    · simp only [hcn, if_false]; exact h.dom c' n'
+  · intro c' n' cache' e' hc' he'
+    rw [hcache] at hc'; rw [hentry] at he'
+    by_cases hcn : c' = c ∧ n' = n
+    · simp only [hcn, and_self, if_true] at hc' he'
+      injection hc' with hc'; injection he' with he'; subst hc'; subst he'; rfl
+    · simp only [hcn, if_false] at hc' he'; exact h.cfg c' n' cache' e' hc' he'
+  · intro c' n' cache' hc'
+    rw [hcache] at hc'
+    by_cases hcn : c' = c ∧ n' = n
+    · simp only [hcn, and_self, if_true] at hc'
+      injection hc' with hc'; subst hc'; exact hname.trans hcn.2.symm
+    · simp only [hcn, if_false] at hc'; exact h.name c' n' cache' hc'
+  · intro c' n' cache' id' hc' hcur'
+    rw [hcache] at hc'
+    rw [hnext]
+    by_cases hcn : c' = c ∧ n' = n
+    · simp only [hcn, and_self, if_true] at hc'
+      injection hc' with hc'; subst hc'
+      simp only at hcur'; injection hcur' with hcur'; subst hcur'
+      exact ⟨hidlt, k', by rw [hheap]; simp, hty, hok⟩
+    · simp only [hcn, if_false] at hc'
+      obtain ⟨hlt, k0, hk0, hty0, hok0⟩ := h.curOk c' n' cache' id' hc' hcur'
+      refine ⟨hlt, k0, ?_, hty0, hok0⟩
+      rw [hheap]
+      simp [hother c' n' cache' id' hcn hc' hcur', hk0]
+  · intro c' n' cache' hc' hcur'
+    rw [hcache] at hc'
+    by_cases hcn : c' = c ∧ n' = n
+    · simp only [hcn, and_self, if_true] at hc'
+      injection hc' with hc'; subst hc'; simp at hcur'
+    · simp only [hcn, if_false] at hc'; exact h.curNone c' n' cache' hc' hcur'
+  · intro c1 n1 c2 n2 cache1 cache2 id' h1 h2 h3 h4
+    rw [hcache] at h1 h2
+    by_cases hcn1 : c1 = c ∧ n1 = n
+    · by_cases hcn2 : c2 = c ∧ n2 = n
+      · exact ⟨hcn1.1.trans hcn2.1.symm, hcn1.2.trans hcn2.2.symm⟩
+      · simp only [hcn1, and_self, if_true] at h1
+        simp only [hcn2, if_false] at h2
+        injection h1 with h1; subst h1
+        simp only at h3; injection h3 with h3; subst h3
+        exact absurd rfl (hother c2 n2 cache2 _ hcn2 h2 h4)
+    · simp only [hcn1, if_false] at h1
+      by_cases hcn2 : c2 = c ∧ n2 = n
+      · simp only [hcn2, and_self, if_true] at h2
+        injection h2 with h2; subst h2
+        simp only at h4; injection h4 with h4; subst h4
+        exact absurd rfl (hother c1 n1 cache1 _ hcn1 h1 h3)
+      · simp only [hcn2, if_false] at h2
+        exact h.inj c1 n1 c2 n2 cache1 cache2 id' h1 h2 h3 h4
+  · rw [hreqs]; exact h.reqsLen
+  · intro i r hi; rw [hreqs] at hi; exact h.reqsEq i r hi
+  · intro i r id' hi hobj; rw [hreqs] at hi; rw [hnext]; exact h.reqObj i r id' hi hobj
+  · intro i r id' c' n' cache' hi hobj hc' hcur'
+    rw [hreqs] at hi; rw [hcache] at hc'
+    by_cases hcn : c' = c ∧ n' = n
+    · simp only [hcn, and_self, if_true] at hc'
+      injection hc' with hc'; subst hc'
+      simp only at hcur'; injection hcur' with hcur'; subst hcur'
+      obtain ⟨rfl, rfl⟩ := hcn
+      exact h.own i r _ _ _ cache hi hobj hc hcur
+    · simp only [hcn, if_false] at hc'
+      exact h.own i r id' c' n' cache' hi hobj hc' hcur'
+  · intro c' n' cache' e' id' cnt' hc' he' hcur' hh
+    rw [hcache] at hc'; rw [hentry] at he'; rw [hheap] at hh
+    by_cases hcn : c' = c ∧ n' = n
+    · simp only [hcn, and_self, if_true] at hc' he'
+      injection hc' with hc'; injection he' with he'; subst hc'; subst he'
+      simp only at hcur'; injection hcur' with hcur'; subst hcur'
+      simp only [if_true] at hh; injection hh with hh
+      exact hcnt cnt' hh
+    · simp only [hcn, if_false] at hc' he'
+      simp only [hother c' n' cache' id' hcn hc' hcur', if_false] at hh
+      exact h.count c' n' cache' e' id' cnt' hc' he' hcur' hh
+  · intro c' n' cache' e' i hc' he'
+    rw [hcache] at hc'; rw [hentry] at he'
+    show _ ↔ HoldsL (putCache (w.setHeap id k') c n _).reqs i cache'.cur
+    rw [hreqs]
+    by_cases hcn : c' = c ∧ n' = n
+    · simp only [hcn, and_self, if_true] at hc' he'
+      injection hc' with hc'; injection he' with he'; subst hc'; subst he'
+      obtain ⟨rfl, rfl⟩ := hcn
+      have := h.infl _ _ cache e i hc he
+      rw [hcur] at this
+      exact this
+    · simp only [hcn, if_false] at hc' he'
+      exact h.infl c' n' cache' e' i hc' he'
+  · intro c' n' e' he'
+    rw [hentry] at he'
+    by_cases hcn : c' = c ∧ n' = n
+    · simp only [hcn, and_self, if_true] at he'
+      injection he' with he'; subst he'
+      obtain ⟨rfl, rfl⟩ := hcn
+      exact h.nodup _ _ e he
+    · simp only [hcn, if_false] at he'; exact h.nodup c' n' e' he'
+
+
+/-- A cache without limiter is stored for the zero schema (only under the empty name). -/
+theorem rel_nil {w : World} {σ : SState} (h : RelCore w σ) (c : Str) :
+    RelCore (putCache w c Schema.zero.name (some ⟨Schema.zero, none⟩))
+      (σ.setEntry c Schema.zero.name (some ⟨Schema.zero, []⟩)) := by
+  have hcache : ∀ c' n', (putCache w c Schema.zero.name (some ⟨Schema.zero, none⟩)).cache c' n' =
+      if c' = c ∧ n' = Schema.zero.name then some ⟨Schema.zero, none⟩ else w.cache c' n' := by
+    intro c' n'; rw [putCache_cache]
+  have hentry : ∀ c' n', (σ.setEntry c Schema.zero.name (some ⟨Schema.zero, []⟩)).entries c' n' =
+      if c' = c ∧ n' = Schema.zero.name then some ⟨Schema.zero, []⟩ else σ.entries c' n' := fun _ _ => rfl
+  have hreqs : (putCache w c Schema.zero.name (some ⟨Schema.zero, none⟩)).reqs = w.reqs := rfl
+  refine ⟨?_, ?_, ?_, ?_, ?_, ?_, ?_, ?_, ?_, ?_, ?_, ?_, ?_⟩
+  · intro c' n'
+    rw [hcache, hentry]
+    by_cases hcn : c' = c ∧ n' = Schema.zero.name
+    · simp [hcn]
+    · simp only [hcn, if_false]; exact h.dom c' n'
+  · intro c' n' cache' e' hc' he'
+    rw [hcache] at hc'; rw [hentry] at he'
+    by_cases hcn : c' = c ∧ n' = Schema.zero.name
+    · simp only [hcn, and_self, if_true] at hc' he'
+      injection hc' with hc'; injection he' with he'; subst hc'; subst he'; rfl
+    · simp only [hcn, if_false] at hc' he'; exact h.cfg c' n' cache' e' hc' he'
+  · intro c' n' cache' hc'
+    rw [hcache] at hc'
+    by_cases hcn : c' = c ∧ n' = Schema.zero.name
+    · simp only [hcn, and_self, if_true] at hc'
+      injection hc' with hc'; subst hc'; exact hcn.2.symm
+    · simp only [hcn, if_false] at hc'; exact h.name c' n' cache' hc'
+  · intro c' n' cache' id' hc' hcur'
+    rw [hcache] at hc'
+    by_cases hcn : c' = c ∧ n' = Schema.zero.name
+    · simp only [hcn, and_self, if_true] at hc'
+      injection hc' with hc'; subst hc'; simp at hcur'
+    · simp only [hcn, if_false] at hc'; exact h.curOk c' n' cache' id' hc' hcur'
+  · intro c' n' cache' hc' hcur'
+    rw [hcache] at hc'
+    by_cases hcn : c' = c ∧ n' = Schema.zero.name
+    · simp only [hcn, and_self, if_true] at hc'
+      injection hc' with hc'; subst hc'; rfl
+    · simp only [hcn, if_false] at hc'; exact h.curNone c' n' cache' hc' hcur'
+  · intro c1 n1 c2 n2 cache1 cache2 id' h1 h2 h3 h4
+    rw [hcache] at h1 h2
+    by_cases hcn1 : c1 = c ∧ n1 = Schema.zero.name
+    · simp only [hcn1, and_self, if_true] at h1
+      injection h1 with h1; subst h1; simp at h3
+    · simp only [hcn1, if_false] at h1
+      by_cases hcn2 : c2 = c ∧ n2 = Schema.zero.name
+      · simp only [hcn2, and_self, if_true] at h2
+        injection h2 with h2; subst h2; simp at h4
+      · simp only [hcn2, if_false] at h2
+        exact h.inj c1 n1 c2 n2 cache1 cache2 id' h1 h2 h3 h4
+  · rw [hreqs]; exact h.reqsLen
+  · intro i r hi; rw [hreqs] at hi; exact h.reqsEq i r hi
+  · intro i r id' hi hobj; rw [hreqs] at hi; exact h.reqObj i r id' hi hobj
+  · intro i r id' c' n' cache' hi hobj hc' hcur'
+    rw [hreqs] at hi; rw [hcache] at hc'
+    by_cases hcn : c' = c ∧ n' = Schema.zero.name
+    · simp only [hcn, and_self, if_true] at hc'
+      injection hc' with hc'; subst hc'; simp at hcur'
+    · simp only [hcn, if_false] at hc'
+      exact h.own i r id' c' n' cache' hi hobj hc' hcur'
+  · intro c' n' cache' e' id' cnt' hc' he' hcur' hh
+    rw [hcache] at hc'; rw [hentry] at he'
+    by_cases hcn : c' = c ∧ n' = Schema.zero.name
+    · simp only [hcn, and_self, if_true] at hc'
+      injection hc' with hc'; subst hc'; simp at hcur'
+    · simp only [hcn, if_false] at hc' he'
+      exact h.count c' n' cache' e' id' cnt' hc' he' hcur' hh
+  · intro c' n' cache' e' i hc' he'
+    rw [hcache] at hc'; rw [hentry] at he'
+    show _ ↔ HoldsL (putCache w c Schema.zero.name _).reqs i cache'.cur
+    rw [hreqs]
+    by_cases hcn : c' = c ∧ n' = Schema.zero.name
+    · simp only [hcn, and_self, if_true] at hc' he'
+      injection hc' with hc'; injection he' with he'; subst hc'; subst he'
+      simp only [List.not_mem_nil, false_iff]
+      rintro ⟨r, _, _, _, hsome, ho⟩
+      rw [ho] at hsome; simp at hsome
+    · simp only [hcn, if_false] at hc' he'
+      exact h.infl c' n' cache' e' i hc' he'
+  · intro c' n' e' he'
+    rw [hentry] at he'
+    by_cases hcn : c' = c ∧ n' = Schema.zero.name
+    · simp only [hcn, and_self, if_true] at he'
+      injection he' with he'; subst he'; exact List.nodup_nil
+    · simp only [hcn, if_false] at he'; exact h.nodup c' n' e' he'
+
+theorem newFlowControl_ok {s : Schema} {k : Kind} (h : newFlowControl s = .ok k) :
+    k.type = guessType s ∧ KindOk k s ∧ (∀ cnt, k = .counter cnt → cnt.count = 0) := by
+  unfold newFlowControl at h
+  cases hg : guessType s with
+  | maxInflight =>
+    rw [hg] at h
+    cases hm : s.mi with
+    | none => rw [hm] at h; cases h
+    | some m =>
+      rw [hm] at h; injection h with h; subst h
+      refine ⟨rfl, ?_, ?_⟩
+      · intro cnt hc; injection hc with hc; subst hc; exact ⟨m, hm, rfl⟩
+      · intro cnt hc; injection hc with hc; subst hc; rfl
+  | tokenBucket =>
+    rw [hg] at h
+    cases ht : s.tb with
+    | none => rw [ht] at h; cases h
+    | some qb =>
+      obtain ⟨q, b⟩ := qb
+      rw [ht] at h; injection h with h; subst h
+      refine ⟨rfl, ?_, ?_⟩
+      · intro cnt hc; cases hc
+      · intro cnt hc; cases hc
+  | exempt =>
+    rw [hg] at h; injection h with h; subst h
+    refine ⟨rfl, ?_, ?_⟩
+    · intro cnt hc; cases hc
+    · intro cnt hc; cases hc
+
+
+/-- the `create` branch of `localWrapper.Sync` -/
+def createLimiter (w : World) (s : Schema) : Except String (World × Cache) :=
+  match newFlowControl s with
+  | .error e => .error e
+  | .ok k => .ok (w.alloc k, { config := s, cur := some w.next })
+
+theorem createLimiter_rel {w : World} {σ : SState} (h : RelCore w σ) (c : Str) (s : Schema) (w1 : World) (cache1 : Cache)
+    (hs : createLimiter w s = .ok (w1, cache1)) :
+    RelCore (putCache w1 c s.name (some cache1)) (σ.setEntry c s.name (some ⟨s, []⟩)) ∧ w1.lims = w.lims := by
+  unfold createLimiter at hs
+  cases hnew : newFlowControl s with
+  | error e => rw [hnew] at hs; cases hs
+  | ok k =>
+    rw [hnew] at hs
+    injection hs with hs; injection hs with h1 h2; subst h1; subst h2
+    obtain ⟨hty, hok, hzero⟩ := newFlowControl_ok hnew
+    exact ⟨rel_create h c s k hty hok hzero, rfl⟩
+
+theorem localSync_eq (w : World) (cache : Cache) (s : Schema) :
+    localSync w cache s =
+      if s = cache.config then .ok (w, cache)
+      else match cache.cur with
+        | none => createLimiter w s
+        | some id =>
+          match w.heap id with
+          | none => .error "model: dangling limiter"
+          | some k =>
+            if k.type ≠ guessType s then createLimiter w s
+            else
+              match guessType s with
+              | .maxInflight =>
+                match s.mi with
+                | none => .error panicNil
+                | some m => .ok (w.setHeap id (k.resize (toU32 m) 0), { config := s, cur := some id })
+              | .tokenBucket =>
+                match s.tb with
+                | none => .error panicNil
+                | some (q, b) => .ok (w.setHeap id (k.resize (toU32 q) (toU32 b)), { config := s, cur := some id })
+              | .exempt => .ok (w, { config := s, cur := some id }) := by
+  unfold localSync createLimiter
+  rfl
+
+theorem syncOne_rel {w : World} {σ : SState} (h : RelCore w σ) (c : Str) (s : Schema) (w1 : World) (cache1 : Cache)
+    (hs : localSync w ((w.cache c s.name).getD ⟨Schema.zero, none⟩) s = .ok (w1, cache1)) :
+    RelCore (putCache w1 c s.name (some cache1)) (applySchema σ c s) ∧ w1.lims = w.lims := by
+  rw [localSync_eq] at hs
+  cases hcache : w.cache c s.name with
+  | none =>
+    have hen : σ.entries c s.name = none := by
+      have := h.dom c s.name; rw [hcache] at this
+      cases he : σ.entries c s.name with
+      | none => rfl
+      | some e => rw [he] at this; simp at this
+    have happ : applySchema σ c s = σ.setEntry c s.name (some ⟨s, []⟩) := by
+      unfold applySchema; rw [hen]
+    rw [hcache] at hs
+    simp only [Option.getD_none] at hs
+    by_cases hz : s = Schema.zero
+    · simp only [hz, if_true] at hs
+      injection hs with hs; injection hs with h1 h2; subst h1; subst h2
+      rw [happ, hz]; exact ⟨rel_nil h c, rfl⟩
+    · simp only [hz, if_false] at hs
+      rw [happ]; exact createLimiter_rel h c s w1 cache1 hs
+  | some cache =>
+    obtain ⟨e, he⟩ : ∃ e, σ.entries c s.name = some e := by
+      have := h.dom c s.name; rw [hcache] at this
+      cases he : σ.entries c s.name with
+      | none => rw [he] at this; simp at this
+      | some e => exact ⟨e, rfl⟩
+    have hcfg := h.cfg c s.name cache e hcache he
+    rw [hcache] at hs
+    simp only [Option.getD_some] at hs
+    by_cases hsame : s = cache.config
+    · simp only [hsame, if_true] at hs
+      injection hs with hs; injection hs with h1 h2; subst h1; subst h2
+      have happ : applySchema σ c s = σ := by
+        unfold applySchema; rw [he]; simp [hsame, hcfg]
+      rw [happ, putCache_self w c s.name (some cache) hcache]
+      exact ⟨h, rfl⟩
+    · simp only [hsame, if_false] at hs
+      have hne : s ≠ e.config := by rw [← hcfg]; exact hsame
+      cases hcur : cache.cur with
+      | none =>
+        rw [hcur] at hs
+        simp only at hs
+        -- nothing is in flight under a schema without limiter
+        have hnil : e.inflight = [] := by
+          cases hl : e.inflight with
+          | nil => rfl
+          | cons x xs =>
+            have : x ∈ e.inflight := by simp [hl]
+            obtain ⟨r, _, _, _, hsome, ho⟩ := (h.infl c s.name cache e x hcache he).1 this
+            rw [hcur] at ho; rw [ho] at hsome; simp at hsome
+        have happ : applySchema σ c s = σ.setEntry c s.name (some ⟨s, []⟩) := by
+          unfold applySchema; rw [he]
+          simp only [hne, if_false]
+          split
+          · rfl
+          · rw [← hnil]
+        rw [happ]; exact createLimiter_rel h c s w1 cache1 hs
+      | some id =>
+        rw [hcur] at hs
+        simp only at hs
+        obtain ⟨hlt, k, hk, hty, hok⟩ := h.curOk c s.name cache id hcache hcur
+        rw [hk] at hs
+        simp only at hs
+        by_cases htype : k.type ≠ guessType s
+        · rw [if_pos htype] at hs
+          have happ : applySchema σ c s = σ.setEntry c s.name (some ⟨s, []⟩) := by
+            unfold applySchema; rw [he]
+            have : guessType s ≠ guessType e.config := by
+              rw [← hcfg, ← hty]; exact fun hh => htype hh.symm
+            simp only [hne, if_false, this, not_false_eq_true, if_true]
+          rw [happ]; exact createLimiter_rel h c s w1 cache1 hs
+        · have htype' : k.type = guessType s := by
+            cases hd : decide (k.type = guessType s) with
+            | true => exact of_decide_eq_true hd
+            | false => exact absurd (of_decide_eq_false hd) htype
+          rw [if_neg (fun hh : k.type ≠ guessType s => hh htype')] at hs
+          have happ : applySchema σ c s = σ.setEntry c s.name (some { e with config := s }) := by
+            unfold applySchema; rw [he]
+            have : ¬ guessType s ≠ guessType e.config := by
+              rw [← hcfg, ← hty, htype']; simp
+            simp only [hne, if_false, this]
+          rw [happ]
+          cases hg : guessType s with
+          | maxInflight =>
+            rw [hg] at hs
+            simp only at hs
+            cases hm : s.mi with
+            | none => rw [hm] at hs; cases hs
+            | some m =>
+              rw [hm] at hs
+              injection hs with hs; injection hs with h1 h2; subst h1; subst h2
+              cases k with
+              | counter cnt =>
+                refine ⟨rel_resize h c s.name cache id _ e s hcache hcur he rfl ?_ ?_ ?_, rfl⟩
+                · simp [Kind.resize, Kind.type, hg]
+                · intro cnt' hc'
+                  simp only [Kind.resize] at hc'
+                  injection hc' with hc'; subst hc'
+                  exact ⟨m, hm, rfl⟩
+                · intro cnt' hc'
+                  simp only [Kind.resize] at hc'
+                  injection hc' with hc'; subst hc'
+                  exact h.count c s.name cache e id cnt hcache he hcur hk
+              | infinity => rw [hg] at htype'; cases htype'
+              | bucket q b => rw [hg] at htype'; cases htype'
+          | tokenBucket =>
+            rw [hg] at hs
+            simp only at hs
+            cases ht : s.tb with
+            | none => rw [ht] at hs; cases hs
+            | some qb =>
+              obtain ⟨q, b⟩ := qb
+              rw [ht] at hs
+              injection hs with hs; injection hs with h1 h2; subst h1; subst h2
+              cases k with
+              | counter cnt => rw [hg] at htype'; cases htype'
+              | infinity => rw [hg] at htype'; cases htype'
+              | bucket q0 b0 =>
+                refine ⟨rel_resize h c s.name cache id _ e s hcache hcur he rfl ?_ ?_ ?_, rfl⟩
+                · simp [Kind.resize, Kind.type, hg]
+                · intro cnt' hc'; simp [Kind.resize] at hc'
+                · intro cnt' hc'; simp [Kind.resize] at hc'
+          | exempt =>
+            rw [hg] at hs
+            simp only at hs
+            injection hs with hs; injection hs with h1 h2; subst h1; subst h2
+            cases k with
+            | counter cnt => rw [hg] at htype'; cases htype'
+            | bucket q0 b0 => rw [hg] at htype'; cases htype'
+            | infinity =>
+              have := rel_resize h c s.name cache id .infinity e s hcache hcur he rfl (by simp [Kind.type, hg])
+                (fun cnt' hc' => by cases hc') (fun cnt' hc' => by cases hc')
+              rw [setHeap_self w id .infinity hk] at this
+              exact ⟨this, rfl⟩
+
 end KG.Lemmas.LocalLimiter
